@@ -9,11 +9,14 @@
     only_safe_elems_attrs no_comments
     wellnested_in_out end_tags_safe dropped_subtree_absent
     uri_attrs_checked uri_attrs_safe_partial scheme_punct_witness
+    css_comments_dotall css_expression_classes_cover css_decode_fixed css_no_expression
+    css_urls_safe_partial css_scheme_punct_witness
 -/
 import Genshi.Lemmas.SanNest
 import Genshi.Lemmas.SanTree
 import Genshi.Lemmas.SanForest
 import Genshi.Lemmas.SanUri
+import Genshi.Lemmas.SanCssUrl
 namespace Genshi.Props.C06
 open Genshi Genshi.San Genshi.San.Spec
 
@@ -250,5 +253,111 @@ example : sanitize Cfg.default [.end_ scriptTag] = .ok [.end_ scriptTag] := by d
 example : sanitize Cfg.default [.start aTag [(hrefName, ['H', 't', 'T', 'p', ':', 'x'])], .end_ aTag] =
     .ok [.start aTag [(hrefName, ['H', 't', 'T', 'p', ':', 'x'])], .end_ aTag] ∧
     browserScheme ['H', 't', 'T', 'p', ':', 'x'] = some ['h', 't', 't', 'p'] := by decide +kernel
+
+/-! ## Style attributes
+
+  The emitted value of a `style` attribute is `'; '.join(decls)`.  The browser-side reader of
+  the spec half (`Spec.cssDecode`: escape decoding and comment removal until nothing changes;
+  `Spec.hasExpression`; `Spec.urlArgs` + `Spec.trimArg` + `Spec.browserScheme`) is applied to
+  that value.  Hypotheses on the configuration: `style` is not listed as a URI attribute (else
+  the code never filters its CSS) and no CSS property name of `safe_css` holds a parenthesis. -/
+
+/-- `_CSS_COMMENTS` is compiled with `re.DOTALL` (read from the pattern object by the translator):
+    a comment that spans a line break is removed.  The CSS theorems depend on it. -/
+theorem css_comments_dotall : Genshi.Gen.SanClass.commentsDotall = true := rfl
+
+/-- Every spelling of `expression` that the browser-side reader accepts (upper and lower case,
+    full-width forms, small capitals) is in the character classes of `_EXPRESSION_SEARCH` as
+    compiled (the generated table). -/
+theorem css_expression_classes_cover :
+    classesSubset (wordClasses true expressionWord) Genshi.Gen.SanClass.expressionClasses = true :=
+  expression_classes_cover
+
+/-- where the value of an emitted `style` attribute comes from -/
+theorem style_attr_emitted {cfg : Cfg} {s o : Stream} (h : sanitize cfg s = .ok o)
+    {tag : QName} {attrs : AttrList} (hm : Event.start tag attrs ∈ o)
+    {a : QName × Str} (ha : a ∈ attrs) (hs : a.1.text = styleWord) (hu : styleWord ∉ cfg.uriAttrs) :
+    ∃ x decls, sanitizeCss cfg x = .ok decls ∧ a.2 = Genshi.Str.join declSep decls := by
+  obtain ⟨st1, e, _, hem⟩ := sanitizeFrom_mem h _ hm
+  cases hem with
+  | start tag' attrs0 as he hw hsafe has =>
+    obtain ⟨a0, _, hsa⟩ := sanAttrs_mem has a ha
+    have f := sanAttr_some hsa
+    have hname : a0.1.text = styleWord := by rw [← f.name]; exact hs
+    obtain ⟨v, decls, _, hd, _, hj⟩ := f.style
+      (by rw [hname]; cases hc : cfg.uriAttrs.contains styleWord with
+          | false => rfl
+          | true => exact absurd (by simpa using hc) hu)
+      (by rw [hname]; simp)
+    exact ⟨v, decls, hd, hj⟩
+  | other hw hns hnc => exact absurd rfl (hns tag attrs)
+
+/-- The browser's decoding (CSS escapes, comments; repeated until nothing changes) of an emitted
+    style value is that value itself: what the filter checked is what the browser reads. -/
+theorem css_decode_fixed {cfg : Cfg} {s o : Stream} (h : sanitize cfg s = .ok o)
+    {tag : QName} {attrs : AttrList} (hm : Event.start tag attrs ∈ o)
+    {a : QName × Str} (ha : a ∈ attrs) (hs : a.1.text = styleWord) (hu : styleWord ∉ cfg.uriAttrs) :
+    cssDecode a.2 = a.2 := by
+  obtain ⟨x, decls, hd, hj⟩ := style_attr_emitted h hm ha hs hu
+  rw [hj]; exact sanitizeCss_decode_fixed css_comments_dotall hd
+
+/-- No `expression(` (in any spelling, after decoding) in an emitted style value. -/
+theorem css_no_expression {cfg : Cfg} (hcfg : CssNamesPlain cfg) {s o : Stream} (h : sanitize cfg s = .ok o)
+    {tag : QName} {attrs : AttrList} (hm : Event.start tag attrs ∈ o)
+    {a : QName × Str} (ha : a ∈ attrs) (hs : a.1.text = styleWord) (hu : styleWord ∉ cfg.uriAttrs) :
+    hasExpression (cssDecode a.2) = false := by
+  obtain ⟨x, decls, hd, hj⟩ := style_attr_emitted h hm ha hs hu
+  rw [hj]; exact sanitizeCss_no_expression css_comments_dotall hcfg hd
+
+/-
+  Full statement (the property): for every `url(` argument `arg` of the decoded style value,
+      browserScheme (trimArg arg) = none ∨ ∃ sch, … = some sch ∧ sch ∈ cfg.safeSchemes.
+  FALSE of the code for the same reason as `uri_attrs_safe_partial` (`css_scheme_punct_witness`,
+  finding C06-scheme-punct); proved for every scheme without `+`, `-`, `.`.
+-/
+/-- search: css -/
+theorem css_urls_safe_partial {cfg : Cfg} (hcfg : CssNamesPlain cfg) {s o : Stream} (h : sanitize cfg s = .ok o)
+    {tag : QName} {attrs : AttrList} (hm : Event.start tag attrs ∈ o)
+    {a : QName × Str} (ha : a ∈ attrs) (hs : a.1.text = styleWord) (hu : styleWord ∉ cfg.uriAttrs)
+    {arg : Str} (harg : arg ∈ urlArgs (cssDecode a.2))
+    {sch : Str} (hb : browserScheme (trimArg arg) = some sch) (hp : ∀ c ∈ sch, c ≠ '+' ∧ c ≠ '-' ∧ c ≠ '.') :
+    sch ∈ cfg.safeSchemes := by
+  obtain ⟨x, decls, hd, hj⟩ := style_attr_emitted h hm ha hs hu
+  rw [hj] at harg
+  exact sanitizeCss_urls_safe css_comments_dotall hcfg hd arg harg sch hb hp
+
+/-- a configuration that allows `style` attributes -/
+def styleCfg : Cfg := { Cfg.default with safeAttrs := styleWord :: Cfg.default.safeAttrs }
+def styleName : QName := ⟨[], styleWord⟩
+def divTag : QName := ⟨[], ['d', 'i', 'v']⟩
+def punctCss : Str := ['c', 'o', 'l', 'o', 'r', ':', ' ', 'u', 'r', 'l', '(', 'h', '-', 't', '-', 't', '-', 'p',
+  ':', 'x', ')']
+
+/-- Negation witness of the full statement for `url()`: `color: url(h-t-t-p:x)` is emitted. -/
+theorem css_scheme_punct_witness :
+    sanitize styleCfg [.start divTag [(styleName, punctCss)], .end_ divTag] =
+        .ok [.start divTag [(styleName, punctCss)], .end_ divTag] ∧
+      urlArgs (cssDecode punctCss) = [['h', '-', 't', '-', 't', '-', 'p', ':', 'x']] ∧
+      browserScheme (trimArg ['h', '-', 't', '-', 't', '-', 'p', ':', 'x']) = some ['h', '-', 't', '-', 't', '-', 'p'] ∧
+      ['h', '-', 't', '-', 't', '-', 'p'] ∉ styleCfg.safeSchemes := by
+  decide +kernel
+
+-- non-vacuity: the hypotheses hold for the default sets, and the filter acts on encoded payloads
+example : CssNamesPlain Cfg.default ∧ CssNamesPlain styleCfg ∧ styleWord ∉ styleCfg.uriAttrs := by
+  unfold CssNamesPlain; decide +kernel
+-- `\75rl(javascript:x)` is decoded, recognised and dropped; the safe declaration stays
+example : sanitizeCss styleCfg
+    ['b', 'a', 'c', 'k', 'g', 'r', 'o', 'u', 'n', 'd', ':', '\\', '7', '5', 'r', 'l', '(', 'j', 'a', 'v', 'a', 's', 'c',
+     'r', 'i', 'p', 't', ':', 'x', ')', ';', 'c', 'o', 'l', 'o', 'r', ':', 'r', 'e', 'd'] =
+    .ok [['c', 'o', 'l', 'o', 'r', ':', 'r', 'e', 'd']] := by decide +kernel
+-- a comment spanning a line break and a comment completed by the removal of another one
+example : sanitizeCss styleCfg
+    ['t', 'o', 'p', ':', 'e', '/', '/', '*', 'x', '*', '/', '*', '\n', '*', '/', 'x', 'p', 'r', 'e', 's', 's', 'i', 'o',
+     'n', '(', '1', ')'] = .ok [] := by decide +kernel
+-- a hex-escaped backslash stays escaped: the emitted text decodes to itself
+example : sanitizeCss styleCfg ['t', 'o', 'p', ':', '\\', '5', 'c', ' ', '7', '5', ' ', 'r', 'l', '(', 'x', ')'] =
+    .ok [['t', 'o', 'p', ':', '\\', '\\', '7', '5', ' ', 'r', 'l', '(', 'x', ')']] ∧
+    cssDecode ['t', 'o', 'p', ':', '\\', '\\', '7', '5', ' ', 'r', 'l', '(', 'x', ')'] =
+      ['t', 'o', 'p', ':', '\\', '\\', '7', '5', ' ', 'r', 'l', '(', 'x', ')'] := by decide +kernel
 
 end Genshi.Props.C06
